@@ -54,4 +54,10 @@ CHECKS = {
           {'pkg': 'c11', 'run': 'TestNet', 'checks': {'quick': 3000, 'thorough': 64000}, 'shards': {'quick': 4, 'thorough': 16}},
           {'pkg': 'c11', 'run': 'TestBinaryHelpers'},
           {'pkg': 'c11', 'run': 'TestBinaryHelpersRandom', 'checks': {'quick': 20000, 'thorough': 400000}, 'shards': {'quick': 1, 'thorough': 4}}]},
+    'C16': {'level': 'exploration',
+ 'assumptions': ['the other side of the call carries no interceptors; calls are carried by the in-memory transport',
+                 "'first to see outgoing / last to see incoming' is read in call direction, as in the WithInterceptors documentation diagram: on a handler the "
+                 "first interceptor's wrapped conn is next to the network"],
+ 'jobs': [{'pkg': 'c16', 'run': 'TestTrees', 'checks': {'quick': 8000, 'thorough': 300000}, 'shards': {'quick': 4, 'thorough': 16}},
+          {'pkg': 'c16', 'run': 'TestCompositions'}]},
 }
